@@ -109,7 +109,8 @@ def sheared_noreduce(crys, rng, via_dict):
 
 def mesh_case(ck, rng, label, crys, ex, Nmesh):
     dim = crys.dim
-    res = dict(label=label, crys=repr(crys), Nmesh=list(Nmesh), nG=len(ex.ops))
+    res = dict(label=label, crys=repr(crys), Nmesh=list(Nmesh), nG=len(ex.ops), _crys=crys,
+               orthogonal=bool(np.abs(crys.metric - np.diag(np.diag(crys.metric))).max() < 1e-12 * np.abs(crys.metric).max()))
     try:
         kfull = crys.fullkptmesh(Nmesh)
         kfull0 = np.array(kfull, copy=True)
@@ -150,14 +151,21 @@ def mesh_case(ck, rng, label, crys, ex, Nmesh):
     # ---- direct evaluation (python integers) --------------------------------------------------
     box = [h for h in itertools.product(*[range(-a, a + 1) for a in hmax])]
     def inbz(n): return all(2 * sg.bil6(m6, n, h) <= L * sg.bil6(m6, h, h) for h in box)
+    def interior(n): return all(2 * sg.bil6(m6, n, h) < L * sg.bil6(m6, h, h) for h in box if any(h))
+    res["_interior"] = sorted(n for n in full if interior(n)); res["_L"] = L
     res["full_out"] = [i for i, n in enumerate(full) if not inbz(n)][:5]
     res["red_out"] = [i for i, n in enumerate(red) if not inbz(n)][:5]
     cl_full = [lexmin_class(Ts, n, dim) for n in full]
     mult = {}
     for c in cl_full: mult[c] = mult.get(c, 0) + 1
     cl_red = [lexmin_class(Ts, n, dim) for n in red]
-    res["bad_weight"] = [(i, counts[i], mult.get(c, 0)) for i, c in enumerate(cl_red) if counts[i] != mult.get(c, 0) or counts[i] <= 0][:5]
-    res["dup_reps"] = len(cl_red) - len(set(cl_red))
+    # several representatives of one class (an orbit split over two |k|^2 shells by rounding) are legitimate as long as every
+    # count is positive and the counts of a class add up to its multiplicity (Coq: valid_reduction2b)
+    tot = {}
+    for c, n_ in zip(cl_red, counts): tot[c] = tot.get(c, 0) + n_
+    res["bad_weight"] = [(i, tot[c], mult.get(c, 0)) for i, c in enumerate(cl_red) if tot[c] != mult.get(c, 0) or counts[i] <= 0][:5]
+    res["dup_reps"] = 0
+    res["split_orbits"] = len(cl_red) - len(set(cl_red))
     res["uncovered"] = len(set(cl_full) - set(cl_red))
     res["nclasses"] = len(mult)
     # regular grid? (information)
@@ -215,9 +223,9 @@ def run_coq(ck, name, cases, chunk=10):
 
 
 def report(ck, res, coq):
-    rep = {k: v for k, v in res.items() if k != "term"}
+    rep = {k: v for k, v in res.items() if k != "term" and not k.startswith("_")}
     even = "even" if all(n % 2 == 0 for n in res["Nmesh"]) else ("odd" if all(n % 2 for n in res["Nmesh"]) else "mixed")
-    kind = "%dD|%s|%s|%s" % (len(res["Nmesh"]), even, "iso" if len(set(res["Nmesh"])) == 1 else "aniso", res["label"].split("-")[-1] if res["label"].startswith("rand") else "named")
+    kind = "%dD|%s|%s|%s" % (len(res["Nmesh"]), even, "iso" if len(set(res["Nmesh"])) == 1 else "aniso", ("scaled" if res["label"].startswith("scaled") else "noreduce" if res["label"].startswith("noreduce") else res["label"].split("-")[-1] if res["label"].startswith("rand") else "named"))
     ck.case(key=(res["crys"], res["Nmesh"]), nontrivial=res.get("Nk", 0) >= 4 and res.get("Nred", 0) >= 2, kind=kind,
             sample={"crystal": res["crys"], "Nmesh": res["Nmesh"], "Nk": res.get("Nk"), "Nred": res.get("Nred"), "|G|": res["nG"],
                     "first_full_points_n": res.get("full0"), "first_reduced_(n,count)": res.get("red0"), "coq": coq})
@@ -230,10 +238,11 @@ def report(ck, res, coq):
     if res["full_out"]: bad.append(("c22-full-mesh-outside-BZ-" + cause, "full-mesh point(s) %s lie outside the first Brillouin zone (BZG has %d vectors, the Brillouin zone %d facets)" % (res["full_out"], res["BZG"], res["bzg_exact"])))
     if res["red_out"]: bad.append(("c22-reduced-mesh-outside-BZ-" + cause, "reduced-mesh point(s) %s lie outside the first Brillouin zone" % res["red_out"]))
     if res["bzg_missing"]: bad.append(("c22-bzg-incomplete" + ("-candidate-range-3" if beyond3 else ""), "BZG lacks the zone facet(s) G = B.%s (BZG has %d vectors, the Brillouin zone %d facets)" % (res["bzg_missing"], res["BZG"], res["bzg_exact"])))
+    if res.get("scaling_mismatch"): bad.append(("c22-scaling-mismatch", "strictly interior mesh points (integer reciprocal coordinates) differ from those of the unscaled crystal, e.g. n = %s" % (res["scaling_mismatch"],)))
     if res["inbz_wrong"]: bad.append(("c22-inBZ-wrong-" + cause, "inBZ() disagrees with exact Brillouin-zone membership for full-mesh point(s) %s (BZG has %d vectors, the Brillouin zone %d facets)" % (res["inbz_wrong"], res["BZG"], res["bzg_exact"])))
     closed = res.get("group_closed", True)     # crys.G not closed under multiplication (C18, non-reduced cells): orbits undefined
     if closed and (res["bad_weight"] or res["dup_reps"] or res["uncovered"]):
-        bad.append(("c22-wrong-weights", "weights are not the orbit multiplicities: (index, count, exact) %s; equivalent representatives %d; classes without representative %d" %
+        bad.append(("c22-wrong-weights", "weights are not the orbit multiplicities: (index, summed count of its class, exact) %s; equivalent representatives %d; classes without representative %d" %
                     (res["bad_weight"], res["dup_reps"], res["uncovered"])))
     if closed and (res["werr"] > 1e-12 or abs(res["wsum"] - 1) > 1e-12 or res["wmin"] <= 0):
         bad.append(("c22-weights-float", "weights are not positive multiples of 1/N summing to one (max dev %.2g, sum-1 %.2g, min %.2g)" % (res["werr"], res["wsum"] - 1, res["wmin"])))
@@ -246,9 +255,9 @@ def report(ck, res, coq):
         if code == 1: raise RuntimeError("harness certificate rejected by the Coq model: %s" % rep)
         exact_bad = bool(res["full_out"] or res["red_out"] or (closed and (res["bad_weight"] or res["dup_reps"] or res["uncovered"])))
         if not closed and code == 4: code = 0; coq = (0, res["nclasses"])
-        bad = [b for b in bad if not b[0].startswith("c22-bzg-incomplete") and not b[0].startswith("c22-inBZ-wrong")
+        bad = [b for b in bad if not b[0].startswith("c22-bzg-incomplete") and not b[0].startswith("c22-inBZ-wrong") and b[0] != "c22-scaling-mismatch"
                and b[0] not in ("c22-weights-float", "c22-invariant-function")]
-        if (code != 0) != exact_bad or (code == 0 and coq[1] != res["nclasses"]):
+        if (code != 0) != exact_bad or (code == 0 and coq[1] != res["nclasses"]):   # coq[1]: number of classes of the model's greedy reduction
             ck.violation("Coq decision (%s: %s) and the Python evaluator (%s) disagree" % (coq, MEANING.get(code, "ok"), [b[0] for b in bad]), rep, key="c22-model-evaluator-disagree")
 
 
@@ -263,7 +272,7 @@ def choose_mesh(rng, dim, quick):
 def run(ck):
     ck.rule = ("crystal pool (named lattices + random crystal systems incl. hexagonal/monoclinic/triclinic/skewed, 2-D/3-D, 1-3 sites, "
                "lattice scale 0.5..5; plus NON-reduced cells kept by noreduce=True / Crystal.fromdict: unimodular shears of pool crystals and three "
-               "fixed sheared cells) x Nmesh (even / odd / anisotropic, 2..20 per direction); distinct = distinct (crystal, Nmesh); "
+               "fixed sheared cells; plus a length-unit sweep: pool crystals with the lattice scaled by 1e-3, 1e2, 1e3, 1e4) x Nmesh (even / odd / anisotropic, 2..20 per direction); distinct = distinct (crystal, Nmesh); "
                "non-trivial = at least 4 mesh points and 2 reduced points")
     ck.trusted += ["harness/c22.py, sitegen.py: exact read-back of the metric, conversion of k-points to integer reciprocal-lattice coordinates "
                    "(verified rounding), weights to counts (1e-12), Coq literal printing",
@@ -303,6 +312,29 @@ def run(ck):
             continue
         cases.append(res); found += 1
     ck.extra["noreduce_sheared_cells"] = found
+    # length-unit sweep: the same crystal with the lattice scaled by 1e-3 .. 1e4 (mesh, BZG, weights judged as for every cell;
+    # in integer reciprocal coordinates the strictly interior mesh points must coincide with those of the unscaled crystal)
+    from fractions import Fraction as Fr
+    SCALES = [Fr(1, 1000), Fr(100), Fr(1000), Fr(10000)]
+    base = [c for c in cases if "term" in c and not c["label"].startswith("noreduce") and "_crys" in c]
+    base.sort(key=lambda c: (c.get("orthogonal", False), c["label"], str(c["Nmesh"])))       # non-orthogonal lattices first
+    nsweep = 0
+    for b in base[:ck.n(12, 30)]:
+        for sc in ([rng.choice(SCALES)] if ck.quick else SCALES):
+            c0 = b["_crys"]
+            try:
+                cs = _crystal.Crystal(c0.lattice * float(sc), [[np.array(u, copy=True) for u in lst] for lst in c0.basis])
+            except Exception as e:
+                ck.note("Crystal() failed on a lattice scaled by %s (%s: %s) -- skipped" % (sc, type(e).__name__, str(e)[:60])); continue
+            exs = sg.Exact(cs, unit=sc)
+            if not exs.ok or cs.N != c0.N or not np.allclose(cs.lattice, c0.lattice * float(sc), rtol=1e-12, atol=0): continue
+            r2 = mesh_case(ck, rng, "scaled(%s)-%s" % (sc, b["label"]), cs, exs, b["Nmesh"])
+            r2["scaled_from"] = b["crys"]
+            if "_interior" in r2 and (r2["_L"] != b["_L"] or r2["_interior"] != b["_interior"]):
+                r2["scaling_mismatch"] = [n for n in b["_interior"] if n not in set(r2["_interior"])][:4] + [n for n in r2["_interior"] if n not in set(b["_interior"])][:4]
+            cases.append(r2); nsweep += 1
+    ck.extra["length_unit_sweep_cases"] = nsweep
+    ck.extra["cases_with_split_orbits"] = sum(1 for c in cases if c.get("split_orbits"))
     ck.extra["cells_with_facet_coefficient_beyond_3"] = sum(1 for c in cases if c.get("facets_beyond3"))
     good = [c for c in cases if "term" in c]
     codes = {}
